@@ -1010,6 +1010,9 @@ class HistogramBase(abc.ABC):
                     new_dtype
                 )
                 missed = self._missed - other._missed
+                if np.any(missed < 0):
+                    # (underflow / overflow / missed are contents as well)
+                    raise ValueError("Cannot have negative frequencies.")
                 self._set_contents(frequencies, errors2)
                 self._missed = missed
             self._stats = INVALID_STATISTICS
